@@ -1,7 +1,6 @@
 //! Validator on top of the strict reader — the stand-in for `qpdf --check`.
 use super::reader::{Entry, Reader};
 use super::{Lexer, Obj, Tok};
-use std::collections::BTreeSet;
 
 #[derive(Clone, Debug)]
 pub struct Problem {
@@ -19,10 +18,12 @@ pub struct Report {
     pub streams: usize,
     pub revisions: usize,
     pub objstm_members: usize,
+    /// (number, generation) of every live object that loaded
+    pub object_ids: Vec<(u32, u16)>,
 }
 
 pub fn validate(bytes: &[u8], password: Option<&[u8]>) -> Report {
-    let mut rep = Report { problems: vec![], objects: 0, streams: 0, revisions: 0, objstm_members: 0 };
+    let mut rep = Report { problems: vec![], objects: 0, streams: 0, revisions: 0, objstm_members: 0, object_ids: vec![] };
     let rd = match Reader::open(bytes, password) {
         Ok(r) => r,
         Err(e) => {
@@ -34,14 +35,15 @@ pub fn validate(bytes: &[u8], password: Option<&[u8]>) -> Report {
     // every entry of every section addresses "N G obj"
     let mut max_obj = 0u32;
     for sec in &rd.sections {
-        let mut seen = BTreeSet::new();
+        let mut nums: Vec<u32> = sec.entries.iter().map(|(n, _)| *n).collect();
+        nums.sort_unstable();
+        if let Some(w) = nums.windows(2).find(|w| w[0] == w[1]) {
+            rep.problems.push(p("xref-duplicate-entry", format!("object {} listed twice in the section at {}", w[0], sec.offset)));
+        }
         let mut sec_max = 0u32;
         for (n, e) in &sec.entries {
             max_obj = max_obj.max(*n);
             sec_max = sec_max.max(*n);
-            if !seen.insert(*n) {
-                rep.problems.push(p("xref-duplicate-entry", format!("object {n} listed twice in the section at {}", sec.offset)));
-            }
             if let Entry::InUse { off, gen } = e {
                 let off = *off as usize;
                 if off >= bytes.len() || !bytes[off].is_ascii_digit() {
@@ -85,6 +87,7 @@ pub fn validate(bytes: &[u8], password: Option<&[u8]>) -> Report {
         match rd.load(n, g) {
             Ok(o) => {
                 rep.objects += 1;
+                rep.object_ids.push((n, g));
                 if matches!(rd.entry(n), Entry::Compressed { .. }) {
                     rep.objstm_members += 1;
                 }
